@@ -13,9 +13,18 @@ use serde_json::Value;
 type RunFn = fn(Tier) -> i32;
 type ReplayFn = fn(&Value) -> Vec<Violation>;
 
+fn run_c01(tier: Tier) -> i32 {
+    props::c01::run_generic("C01", tier, &std::env::args().skip(1).collect::<Vec<_>>())
+}
+fn run_c07(tier: Tier) -> i32 {
+    props::c01::run_generic("C07", tier, &std::env::args().skip(1).collect::<Vec<_>>())
+}
+
 const PROPS: &[(&str, RunFn, ReplayFn)] = &[
+    ("C01", run_c01, props::c01::replay),
     ("C05", props::c05::run, props::c05::replay),
     ("C06", props::c06::run, props::c06::replay),
+    ("C07", run_c07, props::c01::replay_c07),
     ("C08", props::c08::run, props::c08::replay),
     ("C09", props::c09::run, props::c09::replay),
     ("C10", props::c10::run, props::c10::replay),
